@@ -29,7 +29,7 @@ RULE = (
     "(A) all expression trees with <=4 leaves (test or comparison atoms on independent members) "
     "x operator assignments x negation subsets x 2 parenthesisation styles, on an 81-child "
     "truth-table document; (B) corpus queries, all slice shapes, names/literals over BMP + special "
-    "characters and over query-syntax characters ($ @ . [ ] ( ) ? ...) in 7 syntactic positions, number spellings, the C02 unit corpus plus 17 nested-filter / root-query atoms in one- and two-unit expressions; for each: str() valid, reparse idempotent, same nodes, "
+    "characters and over query-syntax characters ($ @ . [ ] ( ) ? ...) in 7 syntactic positions, number spellings, all Boolean expressions with <=3 leaves as the argument of a LogicalType parameter of a registered function, the C02 unit corpus plus 17 nested-filter / root-query atoms in one- and two-unit expressions; for each: str() valid, reparse idempotent, same nodes, "
     "canonical literals; distinct by construction; non-trivial = query contains a filter, a "
     "string literal or a slice"
 )
@@ -142,8 +142,36 @@ def literals_canonical(s):
     return None
 
 
-def check_roundtrip(q, docs, with_ref=True):
+_LENV = {}
+
+
+def logical_env():
+    """environment with fl_l : LogicalType -> LogicalType (identity) and its reference twin"""
+    if "env" not in _LENV:
+        from jsonpath_rfc9535 import JSONPathEnvironment
+        from jsonpath_rfc9535.function_extensions import ExpressionType, FilterFunction
+
+        class FL(FilterFunction):
+            arg_types = [ExpressionType.LOGICAL]
+            return_type = ExpressionType.LOGICAL
+
+            def __call__(self, x):
+                return x is True
+
+        env = JSONPathEnvironment()
+        env.function_extensions["fl_l"] = FL()
+        reg = dict(rt.BUILTINS)
+        reg["fl_l"] = (("L",), "L")
+        impls = dict(ev.BUILTIN_IMPL)
+        impls["fl_l"] = lambda x: x is True
+        _LENV["env"] = (env, reg, ev.Env(reg, impls))
+    return _LENV["env"]
+
+
+def check_roundtrip(q, docs, with_ref=True, custom=False):
     """-> (kind, expected, observed) | None"""
+    if custom:
+        return _check_roundtrip_custom(q, docs)
     v = diff.ast_of(q)
     assert v.cls == "valid", (q, v)
     r = impl.run(impl.jp.compile, q)
@@ -193,6 +221,38 @@ def check_roundtrip(q, docs, with_ref=True):
     return None
 
 
+def _check_roundtrip_custom(q, docs):
+    """same oracle on an environment with a LogicalType -> LogicalType function"""
+    env, reg, renv = logical_env()
+    v = rt.classify(q, registry=reg)
+    assert v.cls == "valid", (q, v)
+    r = impl.run(env.compile, q)
+    if r[0] != "ok":
+        return None
+    s = str(r[1])
+    vs = rt.classify(s, registry=reg)
+    if vs.cls == "grey":
+        return None
+    if vs.cls != "valid":
+        return ("str-not-valid", "a valid RFC 9535 query", {"str": s, "why": vs.why})
+    r2 = impl.run(env.compile, s)
+    if r2[0] != "ok":
+        return ("str-does-not-compile", "compiles", {"str": s, "raised": r2[1], "msg": r2[3]})
+    if str(r2[1]) != s:
+        return ("str-not-idempotent", s, {"second": str(r2[1])})
+    for doc in docs:
+        a = [(n.location, id(n.value)) for n in r[1].find(doc)]
+        b = [(n.location, id(n.value)) for n in r2[1].find(doc)]
+        if a != b:
+            return ("str-selects-differently", {"nodes": len(a)}, {"str": s, "nodes": len(b)})
+        ea = [loc for loc, _ in ev.evaluate(v.ast, doc, renv)]
+        eb = [loc for loc, _ in ev.evaluate(vs.ast, doc, renv)]
+        if ea != eb or [x[0] for x in a] != ea:
+            return ("str-changes-meaning", {"locations": [list(x) for x in ea][:8]},
+                    {"str": s, "locations": [list(x) for x in eb][:8]})
+    return None
+
+
 def docs_for(q, hint):
     if hint == "tt":
         return [truth_doc()]
@@ -213,7 +273,7 @@ def check_case(case):
     docs = docs_for(case["query"], case.get("docs", "generic"))
     if "special" in case:
         docs = [impl.unjsonable(case["special"])]
-    bad = check_roundtrip(case["query"], docs)
+    bad = check_roundtrip(case["query"], docs, custom=bool(case.get("custom")))
     if bad:
         return violation(bad[0], case, bad[1], bad[2], "roundtrip")
     return None
@@ -286,6 +346,7 @@ def shards(tier):
             {"space": "syntaxchars"}]
     from mc.checks import c02
     out += [{"space": "nested", "i": i} for i in range(len(NESTED_ATOMS) + len(c02.U_ALL))]
+    out += [{"space": "logical_args", "n": n} for n in (1, 2, 3)]
     cp = cps(tier)
     step = 2048
     out += [{"space": "names", "lo": lo, "hi": min(lo + step, len(cp)), "tier": tier} for lo in range(0, len(cp), step)]
@@ -349,6 +410,20 @@ def run_shard(desc):
                 do(f"$[{lit}]", special={name: 1, "x": 2})
                 if k < 3:
                     do(f"$[?@ == {lit} || @.k == {lit}]", special=[name, {"k": name}, "x"])
+    elif sp == "logical_args":
+        # Boolean expressions as the argument of a LogicalType parameter (printed by the
+        # expression classes' own __str__, not by the filter's canonical printer)
+        for e in bool_exprs(desc["n"]):
+            for q in (f"$[?fl_l({e})]", f"$[?!fl_l({e}) || @.d]", f"$[?fl_l(fl_l({e}) && @.d)]"):
+                sh.states += 1
+                sh.transitions += 3
+                sh.traces += 1
+                sh.evaluations += 1
+                sh.nontrivial += 1
+                bad = check_roundtrip(q, [truth_doc()], custom=True)
+                if bad:
+                    sh.violation(violation(bad[0], {"query": q, "docs": "tt", "custom": True}, bad[1], bad[2], "roundtrip"))
+        sh.sample({"query": "$[?fl_l(!(@.a == 1))]"}, limit=1)
     elif sp == "syntaxchars":
         # names / literals made of characters that mean something in the query syntax, in every
         # position where a name or literal can occur (top-level, relative query, root query in a
